@@ -58,3 +58,12 @@ func (p *Position) VerifHashFromScratch() uint64 {
 }
 
 func VerifSlidesTable() [][]Slides { return slides }
+
+// VerifRehash returns the raw form with the internal hash field recomputed from the stacks.
+func (p *Position) VerifRehash() VerifRaw {
+	p.hash = p.VerifHashFromScratch()
+	return p.VerifRaw()
+}
+
+func VerifHash8(basis uint64, b byte) uint64    { return hash8(basis, b) }
+func VerifHash64(basis uint64, w uint64) uint64 { return hash64(basis, w) }
